@@ -454,10 +454,10 @@ fn main() {
     // F1: every single pattern
     {
         let u = pattern_universe(3, &wide_menu);
-        let words = words_upto(ctx.pick(5, 6), true);
+        let words = words_upto(ctx.pick(4, 6), true);
         let nw: usize = words.iter().map(|w| w.1.len()).sum();
         let (u, words) = (&u, &words);
-        ctx.family("single-pattern", &format!("each of the {} patterns with 1..3 letters over {{a,b}}, optional '.' at either end, a digit from {{none,0,1,2,3,8,9}} in every slot (>= 1 digit) x all {} words of length 1..{} over {{a,b,A,B}}", u.len(), nw, ctx.pick(5, 6)), u.len() as u64, |i, acc| {
+        ctx.family("single-pattern", &format!("each of the {} patterns with 1..3 letters over {{a,b}}, optional '.' at either end, a digit from {{none,0,1,2,3,8,9}} in every slot (>= 1 digit) x all {} words of length 1..{} over {{a,b,A,B}}", u.len(), nw, ctx.pick(4, 6)), u.len() as u64, |i, acc| {
             let cfg = Config { patterns: vec![u[i as usize].clone()], ..Default::default() };
             check_config(i, &cfg, words, acc);
             if i % 9973 == 11 {
